@@ -3,10 +3,12 @@ package main
 // C12: the analysed type graph is closed, faithful and finite.
 
 import (
+	"fmt"
 	"go/ast"
 	"go/constant"
 	"go/token"
 	"go/types"
+	"sort"
 	"strings"
 )
 
@@ -601,6 +603,123 @@ func checkBasicKind(w *World, r *Result) {
 	if n < 4 {
 		Undecided("NewBasicKind: only %d flag branches recognised", n)
 	}
+	checkKindMethods(w, r)
+}
+
+// checkKindMethods (AGR-C12n, second half): (*Basic).Kind and (*Enum).Kind classify the underlying go/types basic.
+// Either they go through NewBasicKind with the Info() flags (checked above), or they dispatch on the go/types
+// BasicKind themselves (switch or read-only table): then every typed basic kind that go/types flags as boolean,
+// integer, float or string must be covered, with the kind of that flag.
+func checkKindMethods(w *World, r *Result) {
+	pairs := []struct {
+		flag types.BasicInfo
+		kind string
+	}{{types.IsBoolean, "BKBool"}, {types.IsInteger, "BKInt"}, {types.IsFloat, "BKFloat"}, {types.IsString, "BKString"}}
+	want := map[string]string{} // go/types constant name -> analysis kind
+	for k := types.Bool; k <= types.UnsafePointer; k++ {
+		b := types.Typ[k]
+		for _, p := range pairs {
+			if b.Info()&p.flag != 0 {
+				want[basicKindConstName(k)] = p.kind
+			}
+		}
+	}
+	nbk := w.MustFunc("analysis.NewBasicKind")
+	for _, name := range []string{"analysis.(*Basic).Kind", "analysis.(*Enum).Kind"} {
+		fi := w.Func(name)
+		if fi == nil {
+			continue
+		}
+		viaFlags := false
+		got := map[string]string{}
+		var at token.Pos
+		dispatch := false
+		for _, cf := range calleeClosure(w, fi, 2) {
+			if cf.Decl.Body == nil || cf.Pkg != fi.Pkg {
+				continue
+			}
+			info := cf.Pkg.TypesInfo
+			isBK := func(e ast.Expr) bool {
+				t := info.TypeOf(e)
+				return t != nil && t.String() == "go/types.BasicKind"
+			}
+			cname := func(i *types.Info, e ast.Expr) string {
+				if sel, ok := ast.Unparen(e).(*ast.SelectorExpr); ok {
+					if c, ok := i.Uses[sel.Sel].(*types.Const); ok && c.Type().String() == "go/types.BasicKind" {
+						if v, ok := constant.Int64Val(c.Val()); ok {
+							return basicKindConstName(types.BasicKind(v))
+						}
+					}
+				}
+				return ""
+			}
+			ast.Inspect(cf.Decl.Body, func(x ast.Node) bool {
+				switch s := x.(type) {
+				case *ast.CallExpr:
+					if calleeOf(info, s) == nbk.Obj {
+						viaFlags = true
+					}
+				case *ast.SwitchStmt:
+					if s.Tag == nil || !isBK(s.Tag) {
+						return true
+					}
+					dispatch, at = true, s.Pos()
+					for _, cl := range s.Body.List {
+						cc := cl.(*ast.CaseClause)
+						val := ""
+						for _, st := range cc.Body {
+							if ret, ok := st.(*ast.ReturnStmt); ok && len(ret.Results) >= 1 {
+								val = es(ret.Results[0])
+							}
+						}
+						for _, e := range cc.List {
+							if n := cname(info, e); n != "" {
+								got[n] = val
+							}
+						}
+					}
+				case *ast.IndexExpr:
+					t, key := tableLookup(w, info, s)
+					if t == nil || !isBK(key) {
+						return true
+					}
+					dispatch, at = true, t.pos
+					for _, en := range t.entries {
+						if n := cname(t.info, en.key); n != "" {
+							got[n] = es(en.val)
+						}
+					}
+				}
+				return true
+			})
+		}
+		switch {
+		case dispatch:
+			var names []string
+			for n := range want {
+				names = append(names, n)
+			}
+			sort.Strings(names)
+			for _, n := range names {
+				g, ok := got[n]
+				g = g[strings.LastIndex(g, ".")+1:]
+				r.cond(ok && g == want[n], "AGR-C12n", fi.Name, "types."+n+" -> "+want[n], w.Pos(at), "the dispatch on the go/types kind has this kind, with the class of its go/types flag",
+					"go/types flags "+n+" as "+want[n]+", but the dispatch on the basic kind "+map[bool]string{true: "maps it to " + g, false: "does not list it"}[ok]+": a declaration over this basic type is refused or misclassified")
+			}
+		case viaFlags:
+			r.ok("AGR-C12n", fi.Name, "classification through NewBasicKind(Info())", fnPos(w, fi), "the go/types flags decide, for every basic kind", true)
+		default:
+			Undecided("%s: neither NewBasicKind nor a dispatch on go/types.BasicKind found", name)
+		}
+	}
+}
+
+func basicKindConstName(k types.BasicKind) string {
+	names := map[types.BasicKind]string{types.Bool: "Bool", types.Int: "Int", types.Int8: "Int8", types.Int16: "Int16", types.Int32: "Int32", types.Int64: "Int64", types.Uint: "Uint", types.Uint8: "Uint8", types.Uint16: "Uint16", types.Uint32: "Uint32", types.Uint64: "Uint64", types.Uintptr: "Uintptr", types.Float32: "Float32", types.Float64: "Float64", types.Complex64: "Complex64", types.Complex128: "Complex128", types.String: "String", types.UnsafePointer: "UnsafePointer"}
+	if n, ok := names[k]; ok {
+		return n
+	}
+	return fmt.Sprintf("kind%d", k)
 }
 
 func checkSourceOrder(w *World, r *Result) {
